@@ -182,7 +182,7 @@ theorem not_found_changes_nothing (s : St) (op : Op) (h : (step s op).2 = .nf) :
   have hc : ∀ a b : St, (commit a b).2 ≠ .nf := by
     intro a b; unfold commit; split <;> simp
   cases op <;> simp only [step] at h ⊢
-  case addStream d t => unfold addStream at h ⊢; split at h <;> simp_all
+  case addStream d t => simp [addStream] at h
   case editStream k d t r =>
     unfold editStream at h ⊢
     split at h
